@@ -80,6 +80,28 @@ pub fn run(ctx: &Ctx) -> i32 {
         }
     });
     meta.exhaustive_subspaces.push("all 16 subsets of the four vulnerability patterns".into());
+    // very long lists: totals beyond 2^16, hundreds of lines in one file
+    let sizes = [65_535usize, 65_536, 65_537, 80_000, 131_072, 300];
+    run_workload(ctx, &mut acc, "huge-maps", (sizes.len() * 2 * 3) as u64, |k, rng, acc| {
+        let category = ["optimizations", "vulnerabilities"][(k % 2) as usize];
+        let total = sizes[((k / 2) as usize) % sizes.len()];
+        let per_file = [10usize, 300, 1][((k / 12) as usize) % 3];
+        let pats = crate::mon::c11::patterns_of(category);
+        let p0 = pats[rng.below(pats.len())];
+        let mut m: Vec<(&'static str, crate::report::Entries)> = vec![(p0, crate::mon::c11::gen_huge_entries(total, per_file))];
+        let p1 = pats[rng.below(pats.len())];
+        if p1 != p0 {
+            m.push((p1, vec![("Small.sol".to_string(), [3, 9].into_iter().collect())]));
+        }
+        let order: Vec<usize> = (0..m.len()).collect();
+        let text = report::render_category(category, &m, &order, 0);
+        match report::parse_category(&text, category, &table) {
+            Ok(part) => check_part(category, &m, &part, &text, acc),
+            Err(e) => acc.violation(format!("report-grammar:{}", category), json!({"entries": total, "per_file": per_file, "parse_error": e, "report": trunc(&text, 1500)})),
+        }
+        acc.cov(&format!("huge-maps:{}-entries", total));
+        acc.nontrivial_h(hash_str(&format!("huge{}{}{}", category, total, per_file)));
+    });
     run_workload(ctx, &mut acc, "optimization-maps", 8 * reps, |_k, rng, acc| {
         let mut mask = 0u64;
         for i in 0..23 {
